@@ -4,7 +4,8 @@
 //!
 //!   c21 gen <seed> <n> <tier>    print input lines  `loader|hex(location)|key|offset|length`
 //!   c21 exec                     read input lines, print `tag \t input \t coq-case`
-//!   c21 one <line>               run one line (used for isolation of cases that may abort)
+//!   c21 worker                   child mode: run lines one at a time (isolates cases that may abort)
+//!   c21 one <line>               run one line, print the raw outcome
 //!
 //! Sandbox: $C21_DIR (default /verif/.cache/c21-work) holds `m/` (the model directory with a
 //! fixed population of data files) and files outside `m/` that must never be reachable.
@@ -204,18 +205,55 @@ fn probe_fs(l: &Line, mdir: &Path) -> String {
     }
 }
 
-fn exec_line(line: &str, mdir: &Path) -> String {
+/// A child process (`c21 worker`) that runs cases which may abort the process
+/// (allocation failure in the unfixed FileLoader); respawned when it dies.
+struct Worker {
+    child: std::process::Child,
+    stdin: std::process::ChildStdin,
+    stdout: std::io::BufReader<std::process::ChildStdout>,
+}
+impl Worker {
+    fn spawn() -> Worker {
+        let exe = std::env::current_exe().unwrap();
+        let mut child = std::process::Command::new(exe)
+            .arg("worker")
+            .stdin(std::process::Stdio::piped())
+            .stdout(std::process::Stdio::piped())
+            .stderr(std::process::Stdio::null())
+            .spawn()
+            .unwrap();
+        let stdin = child.stdin.take().unwrap();
+        let stdout = std::io::BufReader::new(child.stdout.take().unwrap());
+        Worker { child, stdin, stdout }
+    }
+    /// None = the worker died while running the line (abort / kill).
+    fn run(&mut self, line: &str) -> Option<Outcome> {
+        if writeln!(self.stdin, "{}", line).is_err() || self.stdin.flush().is_err() {
+            return None;
+        }
+        let mut resp = String::new();
+        match self.stdout.read_line(&mut resp) {
+            Ok(n) if n > 0 => outcome_from_wire(&resp),
+            _ => None,
+        }
+    }
+}
+
+fn exec_line(line: &str, mdir: &Path, worker: &mut Option<Worker>) -> String {
     let l = parse_line(line, mdir);
     // a FileLoader read of a huge length may abort the whole process (allocation failure):
     // isolate in a child process so that the outcome is observable
-    let risky = l.loader == "file" && l.length > (1u64 << 31);
+    let risky = l.loader == "file" && l.length > (1u64 << 31) && l.length <= i64::MAX as u64;
     let (o, aborted) = if risky {
-        let exe = std::env::current_exe().unwrap();
-        let out = std::process::Command::new(exe).arg("one").arg(line).output().unwrap();
-        let s = String::from_utf8_lossy(&out.stdout).to_string();
-        match (out.status.success(), outcome_from_wire(&s)) {
-            (true, Some(o)) => (o, false),
-            _ => (Outcome::Panic, true),
+        let w = worker.get_or_insert_with(Worker::spawn);
+        match w.run(line) {
+            Some(o) => (o, false),
+            None => {
+                let _ = w.child.kill();
+                let _ = w.child.wait();
+                *worker = None;
+                (Outcome::Panic, true)
+            }
         }
     } else {
         (run_impl(&l, mdir), false)
@@ -257,7 +295,7 @@ fn emit(out: &mut impl Write, loader: &str, loc: &str, key: &str, off: u64, len:
 fn interesting_numbers(flen: u64, full: bool) -> Vec<u64> {
     if !full {
         let mut v = vec![0, 1, 8, 8192, 8193, flen.saturating_sub(1), flen, flen + 1, 1 << 32, 1 << 40,
-            (1u64 << 63) - 1, 1 << 63, u64::MAX, u64::MAX - flen, u64::MAX - flen + 1];
+            (1u64 << 63) - 1, 1 << 63, u64::MAX, u64::MAX - flen, (u64::MAX - flen).wrapping_add(1)];
         v.dedup();
         return v;
     }
@@ -265,7 +303,7 @@ fn interesting_numbers(flen: u64, full: bool) -> Vec<u64> {
         flen.saturating_sub(1), flen, flen + 1, flen / 2,
         1 << 31, (1 << 31) + 1, 1 << 32, (1 << 32) + 5, 1 << 40, 1 << 62,
         (1u64 << 63) - 1, 1 << 63, (1 << 63) + 1, u64::MAX - 1, u64::MAX,
-        u64::MAX - flen, u64::MAX - flen + 1, (u64::MAX - flen).wrapping_add(2)];
+        u64::MAX - flen, (u64::MAX - flen).wrapping_add(1), (u64::MAX - flen).wrapping_add(2)];
     v.dedup();
     v
 }
@@ -391,7 +429,7 @@ fn generate(seed: u64, n: usize, tier: &str, out: &mut impl Write) {
 }
 
 fn main() {
-    quiet_panics();
+    if std::env::var("VERIF_LOUD").is_err() { quiet_panics(); }
     let args: Vec<String> = std::env::args().collect();
     let stdout = std::io::stdout();
     let mut out = std::io::BufWriter::new(stdout.lock());
@@ -403,10 +441,21 @@ fn main() {
         }
         Some("exec") => {
             let mdir = setup_sandbox();
+            let mut worker = None;
             for line in std::io::stdin().lock().lines() {
                 let line = line.unwrap();
                 if line.trim().is_empty() { continue; }
-                writeln!(out, "{}", exec_line(&line, &mdir)).unwrap();
+                writeln!(out, "{}", exec_line(&line, &mdir, &mut worker)).unwrap();
+            }
+        }
+        Some("worker") => {
+            let mdir = base_dir().join("m");
+            for line in std::io::stdin().lock().lines() {
+                let line = line.unwrap();
+                let l = parse_line(&line, &mdir);
+                let o = run_impl(&l, &mdir);
+                writeln!(out, "{}", outcome_to_wire(&o)).unwrap();
+                out.flush().unwrap();
             }
         }
         Some("one") => {
